@@ -56,7 +56,14 @@ fn run_t<T: Dyn>(out: &mut Out, rng: &mut Rng, n: usize, routes: &Vec<Vec<Option
     let tol_okh = if T::TAG == "f32" { 6e-4 } else { 2e-6 };
     for a in 0..nt {
         if !PRESENT[a] { continue; }
-        let srcs: Vec<Vec<T>> = cube.iter().filter_map(|c| { let x: Vec<T> = c.iter().map(|v| T::of(*v)).collect(); T::direct(RGB, a, &x) }).collect();
+        let mut srcs: Vec<Vec<T>> = cube.iter().filter_map(|c| { let x: Vec<T> = c.iter().map(|v| T::of(*v)).collect(); T::direct(RGB, a, &x) }).collect();
+        // the same colours with the hue written a whole number of turns away (and as a negative angle): hues are stored as given and every
+        // consumer has to normalise them itself, so direct conversions and step-by-step routes must still agree
+        let hue_at = match NAMES[a] { "Hsv" | "Hsl" | "Hwb" | "Okhsv" | "Okhsl" | "Okhwb" | "Hsluv" => Some(0), "Lch" | "Lchuv" | "Oklch" => Some(2), _ => None };
+        if let Some(hi) = hue_at {
+            let base: Vec<Vec<T>> = srcs.iter().step_by(5).cloned().collect();
+            for x in base { for k in [-1.0f64, 1.0, 2.0] { let mut y = x.clone(); y[hi] = T::of(y[hi].to64() + 360.0 * k); if y[hi].finite() { srcs.push(y); } } }
+        }
         for b in 0..nt {
             if !PRESENT[b] { continue; }
             let key = format!("{}->{}:{}", NAMES[a], NAMES[b], T::TAG);
